@@ -77,14 +77,21 @@ let vop_of toks = match toks with
   | ["vsubmut"; i; k; h] -> Some (VSubMut (nat i, nat k, bytes_of_hex h))
   | ["velcopy"; i; j] -> Some (VElCopy (nat i, nat j))
   | ["vdel"; i] -> Some (VDel (nat i))
+  | ["vsubassign"; i; k; j] -> Some (VSubAssign (nat i, nat k, nat j))
   | _ -> None
 
 let target_int o = int_of_nat (target o)
 let source_of o = match o with
-  | VCopy (_, j) | VAssign (_, j) | VChild (_, j) -> Some (int_of_nat j)
+  | VCopy (_, j) | VAssign (_, j) | VChild (_, j) | VSubAssign (_, _, j) -> Some (int_of_nat j)
   | _ -> None
 
 let nslots = 6
+(* XmlSpec.sset on the extracted store (sset itself is not extracted) *)
+let rec set_store (l : node option list) (n : int) (v : node option) : node option list = match l, n with
+  | [], 0 -> [v]
+  | [], n -> None :: set_store [] (n - 1) v
+  | _ :: r, 0 -> v :: r
+  | x :: r, n -> x :: set_store r (n - 1) v
 let vdump_store (store : node option list) : string =
   let b = Buffer.create 256 in
   Buffer.add_string b "v";
@@ -284,6 +291,18 @@ let () =
                | LNotRead -> emit "fsl not-read")
             | _ -> emit "fsl save-failed");
          s
+       | ["vsubassign!"; i; k] ->
+         (* <k-th content item of slot i> = slot i  (outside the alphabet of spec and model: the open finding).  What value
+            semantics demands: the item becomes a copy of the value slot i had.  The heap model has no state for what the
+            code does (a block that refers to itself); its lines are not compared on these cases *)
+         if spec then begin
+           let k' = int_of_string k in
+           (match sget s.store (nat i) with
+            | Some (N (l, c, nm, a, ct) as old) when k' < List.length ct ->
+              let ct' = List.mapi (fun idx x -> if idx = k' then old else x) ct in
+              { s with store = set_store s.store (int_of_string i) (Some (N (l, c, nm, a, ct'))) }
+            | _ -> s)
+         end else s
        | ["vassignsubm"; i; k] ->
          (* node = node.toElement().content[k]:  mutable access (touch), then the value of the own k-th content item *)
          let i' = nat i in
